@@ -102,22 +102,29 @@ func c01R2(p *core.Prog, r *core.Report) {
 	}
 	fname := p.FuncName(fn)
 	// the EOF test: err == io.EOF
-	var eofBlock *ssa.BasicBlock
+	var eofBlock, eofSucc *ssa.BasicBlock
 	for _, b := range fn.Blocks {
 		ifi, ok := core.LastInstr(b).(*ssa.If)
 		if !ok {
 			continue
 		}
-		bo, ok := ifi.Cond.(*ssa.BinOp)
-		if ok && bo.Op == token.EQL && (globalNamed(bo.Y, "EOF") || globalNamed(bo.X, "EOF")) {
+		cnd, pol := core.StripNot(ifi.Cond, true)
+		bo, ok := cnd.(*ssa.BinOp)
+		if ok && (bo.Op == token.EQL || bo.Op == token.NEQ) && (globalNamed(bo.Y, "EOF") || globalNamed(bo.X, "EOF")) {
 			eofBlock = b
+			// the successor taken when the error is io.EOF
+			if (bo.Op == token.EQL) == pol {
+				eofSucc = b.Succs[0]
+			} else {
+				eofSucc = b.Succs[1]
+			}
 		}
 	}
 	if eofBlock == nil {
 		r.Undecided(rule, fname, "EOF test", p.Pos(fn.Pos()), "no comparison of the read error with io.EOF found")
 		return
 	}
-	paths, ok := core.EnumPaths(eofBlock, eofBlock.Succs[0], 256)
+	paths, ok := core.EnumPaths(eofBlock, eofSucc, 256)
 	if !ok {
 		r.Undecided(rule, fname, "EOF paths", p.Pos(fn.Pos()), "the EOF handling contains a loop or too many paths")
 		return
@@ -130,94 +137,71 @@ func c01R2(p *core.Prog, r *core.Report) {
 		fa, ok := u.X.(*ssa.FieldAddr)
 		return ok && core.FieldName(fa.X.Type(), fa.Field) == name
 	}
-	// classify If blocks
-	type kind int
-	const (
-		kNone kind = iota
-		kSizeZero
-		kShort
-		kLong
-		kValidate
-		kDigest
-	)
-	classify := func(b *ssa.BasicBlock) kind {
+	// what a branch establishes: cond() returns the negation-stripped comparison and whether it is
+	// true on the edge the path takes
+	cond := func(b *ssa.BasicBlock, path core.BlockPath) (*ssa.BinOp, bool, bool) {
 		ifi, ok := core.LastInstr(b).(*ssa.If)
 		if !ok {
-			return kNone
+			return nil, false, false
 		}
-		bo, ok := ifi.Cond.(*ssa.BinOp)
+		cnd, pol := core.StripNot(ifi.Cond, true)
+		bo, ok := cnd.(*ssa.BinOp)
 		if !ok {
-			return kNone
+			return nil, false, false
 		}
-		switch {
-		case bo.Op == token.EQL && isField(bo.X, "Size"):
-			if k, ok := core.ConstInt(bo.Y); ok && k == 0 {
-				return kSizeZero
-			}
-		case bo.Op == token.LSS && isField(bo.X, "readBytes") && isField(bo.Y, "Size"):
-			return kShort
-		case bo.Op == token.GTR && isField(bo.X, "readBytes") && isField(bo.Y, "Size"):
-			return kLong
-		case (bo.Op == token.NEQ || bo.Op == token.EQL) && isDigestType(bo.X.Type()):
-			return kDigest
+		taken := core.EdgeTaken(path, b)
+		if taken < 0 {
+			return nil, false, false
 		}
-		if x, _, isNil := errCmpNil(bo); isNil {
-			for _, oc := range originCalls(x) {
-				if cal := core.Callee(oc); cal != nil && cal.Name() == "Validate" {
-					return kValidate
-				}
-			}
-		}
-		return kNone
+		return bo, (taken == 0) == pol, true
 	}
-	// the more robust recognition of the size comparisons: any ordered comparison between the byte counter and the descriptor size
-	sizeCmp := func(b *ssa.BasicBlock) bool {
-		ifi, ok := core.LastInstr(b).(*ssa.If)
-		if !ok {
-			return false
-		}
-		bo, ok := ifi.Cond.(*ssa.BinOp)
-		if !ok {
-			return false
-		}
-		switch bo.Op {
-		case token.LSS, token.GTR, token.LEQ, token.GEQ, token.NEQ, token.EQL:
-			return (isField(bo.X, "readBytes") && isField(bo.Y, "Size")) || (isField(bo.Y, "readBytes") && isField(bo.X, "Size"))
-		}
-		return false
-	}
+	isCounter := func(v ssa.Value) bool { return isField(v, "readBytes") }
+	isSize := func(v ssa.Value) bool { return isField(v, "Size") }
 	badNoSize, badNoDigest, badClean := 0, 0, 0
 	sample := ""
 	for _, path := range paths {
 		sizeSeen, digSeen, mismatch := false, false, false
 		for _, b := range path {
-			k := classify(b)
-			taken := core.EdgeTaken(path, b)
-			switch k {
-			case kSizeZero:
-				if taken == 0 {
-					sizeSeen = true // size unknown: learned from the stream
-				}
-			case kShort, kLong:
-				if taken == 0 {
-					mismatch = true
-				}
-			case kValidate:
-				// Validate() != nil true edge: trust on first use; false edge leads to the comparison
-				ifi := core.LastInstr(b).(*ssa.If)
-				_, neq, _ := errCmpNil(ifi.Cond)
-				if (neq && taken == 0) || (!neq && taken == 1) {
-					digSeen = true
-				}
-			case kDigest:
-				digSeen = true
-				bo := core.LastInstr(b).(*ssa.If).Cond.(*ssa.BinOp)
-				if (bo.Op == token.NEQ && taken == 0) || (bo.Op == token.EQL && taken == 1) {
-					mismatch = true
-				}
+			bo, truth, ok := cond(b, path)
+			if !ok {
+				continue
 			}
-			if sizeCmp(b) {
+			switch {
+			case (bo.Op == token.EQL || bo.Op == token.NEQ) && isSize(bo.X):
+				if k, isK := core.ConstInt(bo.Y); isK && k == 0 {
+					if (bo.Op == token.EQL) == truth {
+						sizeSeen = true // size unknown: learned from the stream
+					}
+				}
+			case (isCounter(bo.X) && isSize(bo.Y)) || (isCounter(bo.Y) && isSize(bo.X)):
 				sizeSeen = true
+				// does this edge establish counter != size?
+				switch bo.Op {
+				case token.LSS, token.GTR, token.NEQ:
+					if truth {
+						mismatch = true
+					}
+				case token.LEQ, token.GEQ, token.EQL:
+					if !truth {
+						mismatch = true
+					}
+				}
+			case (bo.Op == token.NEQ || bo.Op == token.EQL) && isDigestType(bo.X.Type()):
+				digSeen = true
+				if (bo.Op == token.NEQ) == truth {
+					mismatch = true
+				}
+			default:
+				if x, neq, isNil := errCmpNil(bo); isNil {
+					for _, oc := range originCalls(x) {
+						if cal := core.Callee(oc); cal != nil && cal.Name() == "Validate" {
+							// Validate() failed: trust on first use, the digest is learned from the stream
+							if neq == truth {
+								digSeen = true
+							}
+						}
+					}
+				}
 			}
 		}
 		ret := core.LastInstr(path[len(path)-1]).(*ssa.Return)
@@ -257,31 +241,47 @@ func c01R3(p *core.Prog, r *core.Report) {
 	}
 	fname := p.FuncName(fn)
 	n := 0
+	lim := modPath("internal/limitread")
+	freshErrRet := func(succ *ssa.BasicBlock) bool {
+		ret, isRet := core.LastInstr(succ).(*ssa.Return)
+		if !isRet {
+			return false
+		}
+		if c, isCall := core.ReturnOperand(ret, 1).(*ssa.Call); isCall {
+			if cal := core.Callee(c); cal != nil && (core.IsFunc(cal, "fmt", "Errorf") || core.IsFunc(cal, "errors", "New")) {
+				return true
+			}
+		}
+		return false
+	}
 	for _, b := range fn.Blocks {
 		ifi, ok := core.LastInstr(b).(*ssa.If)
 		if !ok {
 			continue
 		}
-		bo, ok := ifi.Cond.(*ssa.BinOp)
-		if !ok || bo.Op != token.LSS || !fieldLoadOf(bo.X, modPath("internal/limitread"), "LimitRead", "Limit") {
+		cnd, _ := core.StripNot(ifi.Cond, true)
+		bo, ok := cnd.(*ssa.BinOp)
+		if !ok {
 			continue
 		}
-		if k, isK := core.ConstInt(bo.Y); !isK || k != 0 {
+		switch bo.Op {
+		case token.LSS, token.GTR, token.LEQ, token.GEQ:
+		default:
 			continue
+		}
+		// an ordered comparison that involves the limit (the remaining budget against zero, or the
+		// bytes returned against the limit) and whose one edge leaves with an error
+		if !dependsOnField(bo.X, lim, "LimitRead", "Limit") && !dependsOnField(bo.Y, lim, "LimitRead", "Limit") {
+			continue
+		}
+		if !freshErrRet(b.Succs[0]) && !freshErrRet(b.Succs[1]) {
+			continue // the re-slice test: not an exit
 		}
 		n++
-		ok2 := false
-		if ret, isRet := core.LastInstr(b.Succs[0]).(*ssa.Return); isRet {
-			if c, isCall := core.ReturnOperand(ret, 1).(*ssa.Call); isCall {
-				if cal := core.Callee(c); cal != nil && (core.IsFunc(cal, "fmt", "Errorf") || core.IsFunc(cal, "errors", "New")) {
-					ok2 = true
-				}
-			}
-		}
-		r.Check(ok2, rule, fname, fmt.Sprintf("limit exceeded edge#%d", n), p.Pos(bo.Pos()), "the edge on which the limit is below zero returns a freshly built error (never nil, never the underlying EOF)")
+		r.Held(rule, fname, fmt.Sprintf("limit exceeded edge#%d", n), p.Pos(bo.Pos()), "the edge on which the limit is exceeded returns a freshly built error (never nil, never the underlying EOF)")
 	}
 	if n < 2 {
-		r.Violated(rule, fname, "limit tests", p.Pos(fn.Pos()), fmt.Sprintf("%d tests of Limit < 0 found, 2 needed (before and after the underlying read)", n))
+		r.Violated(rule, fname, "limit tests", p.Pos(fn.Pos()), fmt.Sprintf("%d limit tests that leave with a fresh error found, 2 needed (before and after the underlying read)", n))
 	}
 	// bounded slice: the buffer passed to the underlying Read is a phi of the parameter and a re-slice
 	bounded := false
@@ -362,7 +362,37 @@ func c01R4(p *core.Prog, r *core.Report) {
 			return n == br && name == f
 		}
 		bad := ""
-		for in := range (core.Reach{Stop: stop}).FromInstr(under) {
+		// a rewind that did not land on offset 0 is not a rewind: returns behind the `o != 0` edge of
+		// the underlying Seek's own result are outside the rule
+		notAtStart := func(from, to *ssa.BasicBlock) bool {
+			ifi, ok := core.LastInstr(from).(*ssa.If)
+			if !ok {
+				return false
+			}
+			cnd, pol := core.StripNot(ifi.Cond, true)
+			bo, ok := cnd.(*ssa.BinOp)
+			if !ok || (bo.Op != token.NEQ && bo.Op != token.EQL) {
+				return false
+			}
+			k, isK := core.ConstInt(bo.Y)
+			if !isK || k != 0 {
+				return false
+			}
+			fromSeek := false
+			for _, o := range core.Origins(bo.X, core.SliceOpts{}) {
+				if o.Kind == core.OCall && ssa.Instruction(o.Call) == under && (o.Res == 0 || o.Res == -1) {
+					fromSeek = true
+				}
+			}
+			if !fromSeek {
+				return false
+			}
+			if (bo.Op == token.NEQ) == pol {
+				return to == from.Succs[0]
+			}
+			return to == from.Succs[1]
+		}
+		for in := range (core.Reach{Stop: stop, StopEdge: notAtStart}).FromInstr(under) {
 			if ret, isRet := in.(*ssa.Return); isRet && core.IsNilConst(core.ReturnOperand(ret, 1)) {
 				// the early `offset != 0` style returns carry an error or the old position: only nil-error returns count
 				bad = p.Pos(ret.Pos())
@@ -376,11 +406,15 @@ func c01R4(p *core.Prog, r *core.Report) {
 	}
 	// the new reader tees into the new digester
 	teeOK := false
+	helpers := core.Helpers(seek, 2)
 	for _, fs := range fieldStores([]*ssa.Function{seek}, func(n *types.Named, f string) bool { return n == br && must[f] == "the verifying reader" }) {
-		for _, oc := range originCalls(fs.Store.Val) {
-			if cal := core.Callee(oc); cal != nil && core.IsFunc(cal, "io", "TeeReader") {
-				for _, h := range originCalls(oc.Call.Args[1]) {
-					if hc := core.Callee(h); hc != nil && hc.Name() == "Hash" {
+		for _, o := range core.Origins(fs.Store.Val, core.SliceOpts{Helpers: helpers}) {
+			if o.Kind != core.OCall {
+				continue
+			}
+			if cal := o.Callee(); cal != nil && core.IsFunc(cal, "io", "TeeReader") {
+				for _, h := range core.Origins(o.Call.Call.Args[1], core.SliceOpts{Helpers: helpers}) {
+					if h.Kind == core.OCall && h.Callee() != nil && h.Callee().Name() == "Hash" {
 						teeOK = true
 					}
 				}
@@ -455,14 +489,27 @@ func c01R6(p *core.Prog, r *core.Report) {
 		return
 	}
 	crOK, clOK := false, false
-	for _, fn := range core.WithAnon(next) {
+	var scope []*ssa.Function
+	seenFn := map[*ssa.Function]bool{}
+	for _, f := range core.WithAnon(next) {
+		for h := range core.Helpers(f, 2) {
+			for _, g := range core.WithAnon(h) {
+				if !seenFn[g] {
+					seenFn[g] = true
+					scope = append(scope, g)
+				}
+			}
+		}
+	}
+	for _, fn := range scope {
 		for _, b := range fn.Blocks {
 			ifi, ok := core.LastInstr(b).(*ssa.If)
 			if !ok {
 				continue
 			}
-			bo, ok := ifi.Cond.(*ssa.BinOp)
-			if !ok {
+			cnd, pol := core.StripNot(ifi.Cond, true)
+			bo, ok := cnd.(*ssa.BinOp)
+			if !ok || (bo.Op != token.EQL && bo.Op != token.NEQ) {
 				continue
 			}
 			errRet := func(succ *ssa.BasicBlock) bool {
@@ -473,17 +520,22 @@ func c01R6(p *core.Prog, r *core.Report) {
 				v := core.ReturnOperand(ret, len(ret.Results)-1)
 				return v != nil && !core.IsNilConst(v)
 			}
+			// successor taken when the two sides are equal / differ
+			eqSucc, neSucc := b.Succs[0], b.Succs[1]
+			if (bo.Op == token.EQL) != pol {
+				eqSucc, neSucc = neSucc, eqSucc
+			}
 			// Header.Get("Content-Range") == ""
-			if bo.Op == token.EQL {
-				if c, isCall := bo.X.(*ssa.Call); isCall {
+			for _, side := range []ssa.Value{bo.X, bo.Y} {
+				if c, isCall := side.(*ssa.Call); isCall {
 					if cal := core.Callee(c); cal != nil && core.IsMethod(cal, "net/http", "Header", "Get") {
-						if s, isS := core.ConstString(c.Call.Args[len(c.Call.Args)-1]); isS && strings.EqualFold(s, "Content-Range") && errRet(b.Succs[0]) {
+						if s, isS := core.ConstString(c.Call.Args[len(c.Call.Args)-1]); isS && strings.EqualFold(s, "Content-Range") && errRet(eqSucc) {
 							crOK = true
 						}
 					}
 				}
 			}
-			if bo.Op == token.NEQ && (fieldLoadOf(bo.X, modPath("internal/reghttp"), "Resp", "readMax") || fieldLoadOf(bo.Y, modPath("internal/reghttp"), "Resp", "readMax")) && errRet(b.Succs[0]) {
+			if (fieldLoadOf(bo.X, modPath("internal/reghttp"), "Resp", "readMax") || fieldLoadOf(bo.Y, modPath("internal/reghttp"), "Resp", "readMax")) && errRet(neSucc) {
 				clOK = true
 			}
 		}
